@@ -1277,6 +1277,31 @@ func (u *Unit) shift(s *State, in ssa.Instruction, op token.Token, a, b *Term, a
 
 func (u *Unit) bitop(s *State, op token.Token, a, b *Term, ty types.Type) *Term {
 	bits, signed := intBits(ty.Underlying().(*types.Basic))
+	// constant folding (small non-negative literals, the common flag arithmetic)
+	if av, ok := a.intVal(); ok {
+		if bv, ok := b.intVal(); ok && av.Sign() >= 0 && bv.Sign() >= 0 {
+			r := new(bigInt)
+			switch op {
+			case token.AND:
+				return BigLit(r.And(av, bv))
+			case token.OR:
+				return BigLit(r.Or(av, bv))
+			case token.XOR:
+				return BigLit(r.Xor(av, bv))
+			case token.AND_NOT:
+				return BigLit(r.AndNot(av, bv))
+			}
+		}
+	}
+	// x & 2^k (single bit test): bit k of x, scaled back (floor div/mod = two's complement bits)
+	if op == token.AND {
+		for _, pr := range [][2]*Term{{a, b}, {b, a}} {
+			if mv, ok := pr[1].intVal(); ok && mv.Sign() > 0 && new(bigInt).And(mv, new(bigInt).Sub(mv, bigOne)).Sign() == 0 {
+				k := uint(mv.BitLen() - 1)
+				return Mul(EMod(EDiv(pr[0], pow2(k)), IntLit(2)), pow2(k))
+			}
+		}
+	}
 	// constant masks of the form 2^k-1 and single bits become mod/div arithmetic
 	if op == token.AND {
 		if bv, ok := b.intVal(); ok {
